@@ -587,8 +587,33 @@ func (x *Exec) verifyBody() {
 		// vacuity guard: the precondition must be satisfiable
 		x.oblige(st, x.TopKey+"#cover.requires", BoolT(true), "cover")
 		x.Old = st.snapshot()
+		// entry case splits (exhaustive by construction: cond / not cond)
+		states := []*State{st}
+		for _, sp := range ct.Splits {
+			var next []*State
+			for _, s := range states {
+				c := x.evalExprBool(s, x.Old, s.top(), sp, x.paramEnvOf(env))
+				alt := s.clone()
+				s.assume(c)
+				alt.assume(Not(c))
+				next = append(next, s, alt)
+			}
+			states = next
+		}
+		for _, s := range states {
+			x.run(s)
+		}
+		return
 	}
 	x.run(st)
+}
+
+func (x *Exec) paramEnvOf(env map[string]Val) map[string]Val {
+	out := map[string]Val{}
+	for k, v := range env {
+		out[k] = v
+	}
+	return out
 }
 
 func (x *Exec) paramEnv(st *State, fr *Frame) map[string]Val {
